@@ -314,3 +314,53 @@ impl<'g, T> RawShared<'g, T> {
         self.inner.ptr_eq(other.inner)
     }
 }
+
+/// `Tagged` operations on plain words for the verification harness.
+#[cfg(circ_verif)]
+pub mod verif_shim {
+    use super::Tagged;
+
+    impl<T> Tagged<T> {
+        pub(crate) fn verif_word(&self) -> usize {
+            self.ptr as usize
+        }
+        pub(crate) fn verif_from_word(word: usize) -> Self {
+            Self {
+                ptr: word as *mut T,
+            }
+        }
+    }
+
+    pub fn tag<T>(w: usize) -> usize {
+        Tagged::<T>::verif_from_word(w).tag()
+    }
+    pub fn high_tag<T>(w: usize) -> usize {
+        Tagged::<T>::verif_from_word(w).high_tag()
+    }
+    pub fn as_raw<T>(w: usize) -> usize {
+        Tagged::<T>::verif_from_word(w).as_raw() as usize
+    }
+    pub fn with_tag<T>(w: usize, tag: usize) -> usize {
+        Tagged::<T>::verif_from_word(w).with_tag(tag).verif_word()
+    }
+    pub fn with_high_tag<T>(w: usize, tag: usize) -> usize {
+        Tagged::<T>::verif_from_word(w)
+            .with_high_tag(tag)
+            .verif_word()
+    }
+    pub fn is_null<T>(w: usize) -> bool {
+        Tagged::<T>::verif_from_word(w).is_null()
+    }
+    pub fn ptr_eq<T>(a: usize, b: usize) -> bool {
+        Tagged::<T>::verif_from_word(a).ptr_eq(Tagged::<T>::verif_from_word(b))
+    }
+    pub fn fmt_pointer<T>(w: usize) -> String {
+        format!("{:p}", Tagged::<T>::verif_from_word(w))
+    }
+    pub fn fmt_debug<T>(w: usize) -> String {
+        format!("{:?}", Tagged::<T>::verif_from_word(w))
+    }
+    pub fn null_word<T>() -> usize {
+        Tagged::<T>::null().verif_word()
+    }
+}
